@@ -62,6 +62,12 @@ def main():
             style = E.make_style(seed, v)
             run.case(R.jhash(ad, style), nontrivial(ad, style), {'seed': seed, 'style': style, 'features': R.ad_features(ad)},
                      lambda: check_generated(run, ad, style), {'kind': 'edif-read', 'seed': seed, 'ad': ad, 'style': style})
+    if cfg.get('corners'):
+        for name, ad in R.corner_ads('edif'):
+            for v in range(4):
+                style = E.make_style('corner', v)
+                run.case(R.jhash('corner', name, style), True, None, lambda: check_generated(run, ad, style),
+                         {'kind': 'edif-read', 'corner': name, 'ad': ad, 'style': style})
     for z in cfg.get('files', []):
         run.case(R.jhash(os.path.basename(z)), True, {'file': os.path.basename(z)}, lambda: check_file(run, z),
                  {'kind': 'edif-file', 'file': z}, limit=cfg.get('file_limit', 60))
